@@ -101,7 +101,7 @@ def oracle(line, out, expect):
         want = expected_input(tok)
         if want is None:
             if wb != b"": return "step %d: unsendable event put bytes on the wire" % i
-            if res != "err:UnexpectedType": return "step %d: unsendable event returned %s" % (i, res)
+            if not res.startswith("err:"): return "step %d: unsendable event returned %s" % (i, res)
             continue
         if not ref.window():
             if wb != b"": return "step %d: input outside the window put bytes on the wire" % i
